@@ -42,14 +42,14 @@ inductive Err where
   | minorSealing        -- SealingConsistencyError
   | nestedRoot          -- NestedRootNamespaceError
   | rootNameCollision   -- RootNamespaceNameCollisionError
-  | serviceField        -- a service type used as a field type (library: InternalError, finding F11)
+  | serviceField        -- a service type used as a field type (library: InvalidTypeError since /repo 1557772; was InternalError, finding F11)
   | assertion           -- a bare `assert` of the library fails
   | dupKey              -- two targets with the same (name, version): not mirrored (finding F9)
   deriving DecidableEq, Repr, Inhabited
 
 /-- The errors that are `InvalidDefinitionError`s in the library. -/
 def Err.isInvalid : Err → Bool
-  | .serviceField | .assertion | .dupKey => false
+  | .assertion | .dupKey => false
   | _ => true
 
 /-! ## File names: `DSDLDefinition.__init__` -/
